@@ -23,6 +23,7 @@
 #include "alloc.h"
 #include "ref_cmpfind.h"
 #include "longpat.h"
+#include "hugestr.h"
 #include "st_string.h"
 #include "early_battery.h"
 
@@ -568,6 +569,60 @@ static void build(vf::Plan &plan, const vf::Opts &o)
                        if (!(*hp)[i].raw.empty()) c.nontrivial();
                    },
                    [hp](uint64_t i) { return strf("haystack %s needle nullptr", show((*hp)[i].raw).c_str()); });
+    }
+    // ---- a haystack of more than 2^31 bytes (indices that no longer fit an int / a 32-bit integer)
+    if (!reduced) {
+        auto &st = plan.stage("huge haystack: 2^31+64 bytes (lazily mapped), occurrences and start / limit positions beyond 2^31", 1,
+                              [](uint64_t, Ctx &c) {
+                                  const size_t H = size_t(1) << 31, N = H + 64;
+                                  vf::Outcome o = vf::guard([&] {
+                                      hugestr::Scope scope;
+                                      ST::string s = hugestr::make(N, [&](char *d) {
+                                          d[7] = 'q';
+                                          d[H - 1] = 'X';
+                                          d[H] = 'Y';
+                                          d[H + 1] = 'q';
+                                          memcpy(d + N - 10, "ab:cd:efgh", 10);
+                                      });
+                                      auto expect = [&](const char *call, long long got, long long want) {
+                                          VF_COUNT("validated");
+                                          if (got != want)
+                                              c.fail(strf("huge-haystack:%s", call), strf("on a string of 2^31+64 bytes %s returned %lld, expected %lld", call, got, want));
+                                      };
+                                      const long long h = (long long)H, n = (long long)N;
+                                      expect("find('X')", s.find('X'), h - 1);
+                                      expect("find(\"XY\")", s.find("XY"), h - 1);
+                                      expect("find(\"xyQ\", case_insensitive)", s.find("xyQ", ST::case_insensitive), h - 1);
+                                      expect("find(ST::string(\"Yq\"))", s.find(ST_LITERAL("Yq")), h);
+                                      expect("find(8, 'q')", s.find(8, 'q'), h + 1);
+                                      expect("find(2^31, 'q')", s.find(H, 'q'), h + 1);
+                                      expect("find(2^31+2, 'q') [absent]", s.find(H + 2, 'q'), -1);
+                                      expect("find(2^31+2, \":\")", s.find(H + 2, ":"), n - 8);
+                                      expect("find(N-4, \"e\")", s.find(N - 4, "e"), n - 4);
+                                      expect("find(N, 'h')", s.find(N, 'h'), -1);
+                                      expect("find_last('q')", s.find_last('q'), h + 1);
+                                      expect("find_last(2^31+1, 'q')", s.find_last(H + 1, 'q'), 7);
+                                      expect("find_last(2^31+2, 'q')", s.find_last(H + 2, 'q'), h + 1);
+                                      expect("find_last(\":\")", s.find_last(":"), n - 5);
+                                      expect("find_last(N-5, \":\")", s.find_last(N - 5, ":"), n - 8);
+                                      expect("find_last(\"XY\")", s.find_last("XY"), h - 1);
+                                      expect("find_last(\"xy\", case_insensitive)", s.find_last("xy", ST::case_insensitive), h - 1);
+                                      expect("find_last(2^31, \"XY\") [does not fit below the limit]", s.find_last(H, "XY"), -1);
+                                      expect("find_last(2^31+1, ST::string(\"XY\"))", s.find_last(H + 1, ST_LITERAL("XY")), h - 1);
+                                      expect("contains('Y')", s.contains('Y'), 1);
+                                      expect("contains(\"efgh\")", s.contains("efgh"), 1);
+                                      expect("contains(\"efgi\")", s.contains("efgi"), 0);
+                                      expect("ends_with(\"efgh\")", s.ends_with("efgh"), 1);
+                                      expect("ends_with(\"EFGH\", case_insensitive)", s.ends_with("EFGH", ST::case_insensitive), 1);
+                                      expect("ends_with(\"efg\")", s.ends_with("efg"), 0);
+                                      expect("starts_with(ST::string of 7 NULs + 'q')", s.starts_with(ST::string::from_validated("\0\0\0\0\0\0\0q", 8)), 1);
+                                  });
+                                  if (!o.ok()) c.fail(strf("huge-haystack:%s", vf::outkind_name(o.kind)), o.str());
+                                  vf::huge_reset();
+                                  c.nontrivial();
+                              },
+                              [](uint64_t) { return std::string("string of 2^31+64 bytes"); });
+        st.case_timeout_s = 300;
     }
     vf_early::add_stage(plan);
 }
